@@ -11,6 +11,7 @@ import (
 	"compiler/verifh/c03"
 	"compiler/verifh/c04"
 	"compiler/verifh/c05"
+	"compiler/verifh/c06"
 	"compiler/verifh/c08"
 	"compiler/verifh/c09"
 	"compiler/verifh/c10"
@@ -30,6 +31,7 @@ var checks = map[string]func(*vl.Ctx){
 	"C03": c03.Run,
 	"C04": c04.Run,
 	"C05": c05.Run,
+	"C06": c06.Run,
 	"C08": c08.Run,
 	"C09": c09.Run,
 	"C10": c10.Run,
